@@ -374,6 +374,7 @@ func (cl *CollectorWorker) sendTracesEarly(ctx context.Context, sendEarlyBytes i
 	// To do this, we sort the traces by their CacheImpact value and then remove traces
 	// until the total size is less than the amount to which we want to shrink.
 	allTraces := cl.cache.GetAll()
+	orderTraces(allTraces)
 
 	traceTimeout := cl.parent.Config.GetTracesConfig().GetTraceTimeout()
 	if traceTimeout == 0 {
